@@ -35,6 +35,9 @@ type Config[O any] struct {
 	MaxStates   int  // safety cap; hitting it clears exhaustive
 	CheckMerges bool // differential oracle on merged states
 	Workers     int
+	// FallbackDepth bounds the unmerged re-exploration used when the merge check shows that
+	// the state key does not determine behaviour (default 4).
+	FallbackDepth int
 }
 
 type Result struct {
@@ -193,7 +196,10 @@ func Explore[O any](r *ev.Run, cfg Config[O]) Result {
 						if i > 0 {
 							s = replay(cfg, j.alt)
 						}
-						got := s.Apply(op, false)
+						// live: the oracles also run on this second path into the state, so that
+						// behaviour depending on something outside the key (hidden state added by
+						// a change, map iteration order on a broken tree) is judged as well
+						got := s.Apply(op, true)
 						want, ok := n.obs[opKey(op)]
 						if strings.HasSuffix(want, " => (terminal)") {
 							got += " => (terminal)"
@@ -220,7 +226,25 @@ func Explore[O any](r *ev.Run, cfg Config[O]) Result {
 		close(ch)
 		wg.Wait()
 		if len(diverged) > 0 {
-			panic("merge-divergence (state key too coarse; checker defect): " + diverged[0])
+			// Two histories reaching the same key behave differently. On a tree where the
+			// property holds this means the key is too coarse (checker defect, exit 2). If the
+			// oracles already found violations, the difference is a symptom of the broken tree.
+			if r.NumViolations() == 0 {
+				// Behaviour depends on something the key does not contain (e.g. hidden state
+				// added by a change). Merging is unsound here: explore this configuration again
+				// WITHOUT merging - every operation sequence up to a depth bound, oracles on.
+				depth := cfg.FallbackDepth
+				if depth <= 0 {
+					depth = 4
+				}
+				n := pathExplore(r, cfg, depth, 400000)
+				r.Add("unmerged_fallback_sequences", n)
+				r.Capped(fmt.Sprintf("%s: state key found too coarse (%s); configuration re-explored without merging to depth %d", cfg.Name, diverged[0], depth))
+			}
+			if r.NumViolations() == 0 {
+				panic("merge-divergence (state key too coarse; checker defect): " + diverged[0])
+			}
+			r.Add("merge_divergences_on_violating_tree", int64(len(diverged)))
 		}
 	}
 	r.AddGraph(res.States, res.Transitions, res.Transitions+res.MergeChecks)
@@ -233,4 +257,62 @@ func replay[O any](cfg Config[O], path []O) Sys[O] {
 		s.Apply(op, false)
 	}
 	return s
+}
+
+// pathExplore executes every operation sequence up to depth (at most limit sequences) on
+// fresh instances with the oracles on, without any state merging.
+func pathExplore[O any](r *ev.Run, cfg Config[O], depth int, limit int64) int64 {
+	frontier := [][]O{nil}
+	var total int64
+	for d := 0; d < depth && len(frontier) > 0; d++ {
+		next := make([][][]O, len(frontier))
+		var wg sync.WaitGroup
+		var mu sync.Mutex
+		idx := 0
+		for w := 0; w < cfg.Workers; w++ {
+			wg.Add(1)
+			go func() {
+				defer wg.Done()
+				for {
+					mu.Lock()
+					i := idx
+					idx++
+					stop := total >= limit
+					mu.Unlock()
+					if i >= len(frontier) || stop {
+						return
+					}
+					path := frontier[i]
+					s := replay(cfg, path)
+					ops := s.Ops()
+					for j, op := range ops {
+						if j > 0 {
+							s = replay(cfg, path)
+						}
+						s.Apply(op, true)
+						term := false
+						if t, ok := s.(interface{ Terminal() bool }); ok {
+							term = t.Terminal()
+						}
+						s.Close()
+						if !term {
+							next[i] = append(next[i], append(append([]O{}, path...), op))
+						}
+						mu.Lock()
+						total++
+						mu.Unlock()
+					}
+					if len(ops) == 0 {
+						s.Close()
+					}
+				}
+			}()
+		}
+		wg.Wait()
+		frontier = frontier[:0]
+		for _, n := range next {
+			frontier = append(frontier, n...)
+		}
+	}
+	return total
 }
